@@ -133,7 +133,7 @@ func init() {
 			u.reqNonNil(fr, st, x, args[0].T)
 			v := Select(u.comp(st, "BIG"), args[0].T)
 			r := App(SInt, "bitlen", App(SInt, "abs", v))
-			u.assume(st.pc, And(Ge(r, IntLit(0)), Le(r, BigLit("9223372036854775807"))))
+			u.assume(st.pc, And(Ge(r, IntLit(0)), Le(r, BigLit("2251799813685248")))) // 2^51: a big.Int occupies at most 2^48 bytes
 			return one(r), st
 		})
 	reg("(*math/big.Int).Bytes", "fresh slice holding the minimal big-endian form of |value|", []string{"alloc", "E:Int"},
